@@ -6,6 +6,82 @@ from ..asn import gen, model, der
 from . import variants
 
 
+def _generic_tree(d, buf):
+    """der.Node tree of a parsed TLV (no type knowledge: nothing is marked as a string or a wrapper)"""
+    if d["constructed"]:
+        nd = der.Node(d["cls"], d["num"], True, None, [_generic_tree(c, buf) for c in d["children"]])
+        # a non-universal constructed TLV with a single TLV inside is, as far as one can tell without the type, an EXPLICIT
+        # tag: most rewritings keep its length form equal to the inner one (the other combination is a listed finding)
+        nd.wrapper = d["cls"] != "U" and len(nd.children) == 1
+        return nd
+    return der.Node(d["cls"], d["num"], False, bytes(buf[d["off"] + d["hdrlen"]: d["off"] + d["total"]]), None)
+
+
+def _definite_minimal(hexout):
+    """the encoder's output with every length in the definite minimal form: an ANY / open type value keeps the octets it
+    arrived in, so DER(decoded) legitimately repeats the rewritten length forms inside such a field"""
+    try:
+        x = drv.unhex(hexout)
+        d, _ = der.parse_tlv(x)
+        return der.serialize(_generic_tree(d, x)).hex()
+    except Exception:
+        return hexout
+
+
+def real_round(chk, tc, rng, quick):
+    """the shipped sample PDUs (foreign encoders' output) and, for the BER ones, their type-agnostic BER rewritings
+    (indefinite lengths on subsets of the constructed TLVs, long-form lengths with leading zero octets)"""
+    from .. import realpdu
+    from . import variants
+    nm = realpdu.names(quick)
+    blds = realpdu.make_many(tc, nm)
+    for spec, pdu, syn, label, data in realpdu.samples(tc, nm):
+        b = blds[spec]
+        if b.exe is None:
+            chk.inconcl("shipped specification %s not built (%s)" % (spec, b.error[0]))
+            continue
+        encs = [("sample", data)]
+        if syn == "BER":
+            d, _ = der.parse_tlv(data)
+            tree = _generic_tree(d, data)
+            assert der.serialize(tree) == data[:d["total"]]
+            encs += variants.ber_variants(rng, tree, 2 if quick else 8)
+        esyn = "DER" if syn == "BER" else syn
+        cases = [drv.Case(i + 1, ["dec s=0 t=%s syn=%s in=%s" % (pdu, syn, drv.hx(x)), "enc s=0 syn=%s" % esyn, "free s=0"])
+                 for i, (fam, x) in enumerate(encs)]
+        res = drv.run_parallel(b.exe, cases, per_case_timeout=120)
+        ref = None
+        for i, (fam, x) in enumerate(encs):
+            r = res.get(i + 1)
+            if r is None or r.status == "notrun":
+                chk.inconcl("case not run")
+                continue
+            chk.evaluations += 1
+            chk.seen(("real", label, x))
+            replay = {"module": b.text, "options": b.options, "pdu": pdu, "sample": "examples/" + label, "family": fam, "input_hex": x.hex()[:6000]}
+            key = {"syntax": syn, "family": fam, "kind": "real", "fids": [], "sample": label}
+            if r.status in ("crash", "hang"):
+                kind, frame = drv.classify_report(r.stderr)
+                chk.violation(dict(key, symptom=r.status, report=kind, frame=frame),
+                              "%s while decoding the shipped sample %s (%s): %s in %s" % (r.status, label, fam, kind, frame), dict(replay, stderr=r.stderr[-3000:]))
+                continue
+            dd, e = r.events[0], r.events[1]
+            bad = None
+            if dd.get("rc") != "OK":
+                bad = "decode-" + dd.get("rc", "?")
+            elif fam != "sample" and int(dd["consumed"]) != len(x):
+                bad = "consumed-mismatch"
+            elif fam == "sample":
+                ref = e.get("out")
+            elif ref is not None and _definite_minimal(e.get("out")) != ref:
+                bad = "value-differs"
+            if bad:
+                chk.violation(dict(key, symptom=bad), "the shipped sample %s in the valid form '%s': %s (rc=%s consumed=%s of %d)" % (
+                    label, fam, bad, dd.get("rc"), dd.get("consumed"), len(x)), replay)
+            else:
+                chk.count("real_" + ("sample" if fam == "sample" else "variant") + "_accepted")
+
+
 def run(tier, seed):
     chk = core.Check("C03", tier, seed)
     quick = tier == "quick"
@@ -19,6 +95,7 @@ def run(tier, seed):
     chk.assumptions = ["only encodings the standards make valid are generated (no padded tags, no non-minimal INTEGER contents, no non-minimal PER lengths)",
                        "trusts the reference encoders in vf/asn (DER/BER, UPER, OER, XER)"]
     tc = build.toolchain()
+    real_round(chk, tc, rng, quick)
     tb = taboo.Taboo("C03")
     nmod = int(os.environ.get("VERIF_NMOD", 4 if quick else 40))
     nvar = 3 if quick else 12
